@@ -20,7 +20,7 @@ PLAN = {
     "quick": {"configs": ["ext1", "ext0"], "nshards": 10, "nshards_ext0": 6, "timeout": 900},
     "thorough": {"configs": ["ext1", "ext0"], "nshards": 16, "timeout": 3400, "suite": ["ext1"]},
 }
-DECIDING = ["init.components", "backend_eq", "rebuild.boundary", "reversed", "utc_decomposition", "pd.contract"]
+DECIDING = ["native_endpoint", "init.components", "backend_eq", "rebuild.boundary", "reversed", "utc_decomposition", "pd.contract"]
 FLOORS = {"quick": {"init.components": 100000, "backend_eq": 100000, "rebuild.boundary": 50000, "reversed": 50000,
                     "utc_decomposition": 3000, "pd.contract": 100000},
           "thorough": {"init.components": 2 * 10**6, "backend_eq": 2 * 10**6, "rebuild.boundary": 10**6, "reversed": 10**6,
@@ -335,11 +335,29 @@ def run(M, c):
     backend_eq(M, n2, n1, kind + ":rev")
     if kind in ("zone", "diffzone"):
         backend_eq(M, _native(a, True), _native(b, True), kind + ":fold")
+    if kind in ("utc", "fixed", "naive", "date"):
+        # the helpers handed subclasses of date/datetime (where wall-clock and elapsed arithmetic cannot differ): same
+        # components whatever the operand classes
+        backend_eq(M, a, b, kind + ":pendulum-operands")
+        backend_eq(M, n1, b, kind + ":native+pendulum")
+        backend_eq(M, b, n1, kind + ":pendulum+native:rev")
     try:
         iv = b - a           # Interval.__init__ contract judges ranges + model rebuild
         rv = a - b
     except OverflowError:
         return
+    if isinstance(a, dt.datetime) and a.tzinfo is not None:
+        # an endpoint given as a native (aware) datetime denotes the same interval
+        try:
+            nb = dt.datetime(*fields(b), tzinfo=b.tzinfo, fold=b.fold)
+            na = dt.datetime(*fields(a), tzinfo=a.tzinfo, fold=a.fold)
+            alt = {"diff(native)": a.diff(nb, False), "interval(a, native)": P.interval(a, nb), "interval(native, b)": P.interval(na, b)}
+            for nm, v in alt.items():
+                M.check("native_endpoint", comps(v) == comps(iv) and td_us(v) == td_us(iv), f"C06/native-endpoint:{nm}",
+                        "an interval with a native datetime endpoint reports other components than with the pendulum value", a=_dsc(a), b=_dsc(b),
+                        pendulum=comps(iv), native=comps(v))
+        except (OverflowError, ValueError):
+            pass
     dom = in_domain(a, b) if kind != "diffzone" else None
     arm, borrow = arm_of(a, b) if dom else ("-", 0)
     if dom and arm != "nonneg":
